@@ -41,6 +41,10 @@ pub fn run(l: &[i128]) -> Vec<i128> {
             Some(r) => vec![b(r.left()), b(r.top()), b(r.right()), b(r.bottom())],
             None => vec![-1],
         },
+        [36, a, bb, c, d] => match NonZeroRect::from_xywh(f(*a), f(*bb), f(*c), f(*d)) {
+            Some(r) => vec![b(r.left()), b(r.top()), b(r.right()), b(r.bottom())],
+            None => vec![-1],
+        },
         [4, a, bb] => match Size::from_wh(f(*a), f(*bb)) {
             Some(s) => vec![b(s.width()), b(s.height())],
             None => vec![-1],
